@@ -300,7 +300,7 @@ GEN_UNITS = {  # property -> units of Gen/Source.v its source-level theorems are
     "C10": ["convert_geometry_to_bbox", "convert_time_to_sample"],
     "C08": ["iterate_over_valid_clips"],
     "C09": ["iterate_over_valid_clips"],
-    "C13": ["compute_similarity_matrix"],
+    "C13": ["compute_similarity_matrix", "group_sound_events"],
 }
 
 
